@@ -10,6 +10,7 @@ import (
 	"time"
 
 	"github.com/llir/llvm/ir"
+	"github.com/llir/llvm/ir/enum"
 	"github.com/llir/llvm/zzsim/simrt"
 )
 
@@ -94,6 +95,10 @@ type C19Scenario struct {
 	// elsewhere in the process.
 	Others []C19Other `json:"others,omitempty"`
 	Tape   *Tape      `json:"tape,omitempty"`
+	// PermSeed (episodes): non-zero = the map ranges of the printer (named
+	// metadata) are visited in seeded orders, a new one for every print of the
+	// episode, while the reference text was printed under the canonical order.
+	PermSeed uint64 `json:"perm_seed,omitempty"`
 }
 
 // C19Other is one concurrent WriteTo on another module.
@@ -239,6 +244,10 @@ func (w *simWriter) as(kind string) io.Writer {
 		return simWriterX{w}
 	case "readfrom":
 		return simWriterRF{w}
+	case "nilptr":
+		// a nil pointer of a type whose Write method does not need its receiver
+		nilPtrSink = w
+		return (*nilPtrWriter)(nil)
 	case "string":
 		return simWriterS{w}
 	case "byte":
@@ -248,6 +257,14 @@ func (w *simWriter) as(kind string) io.Writer {
 	}
 	return w
 }
+
+// nilPtrWriter is used through a nil pointer: a legal io.Writer (its Write
+// method never touches the receiver), although the interface value holds nil.
+type nilPtrWriter struct{ _ int }
+
+var nilPtrSink *simWriter
+
+func (w *nilPtrWriter) Write(p []byte) (int, error) { return nilPtrSink.Write(p) }
 
 type c19Outcome struct {
 	class, sig, detail string
@@ -334,6 +351,34 @@ func c19Run(sc *C19Step, m *ir.Module, S string) *c19Outcome {
 	return out
 }
 
+// c19Edit changes an already printed module in place; the numbers of entities,
+// parameters, blocks and instructions all stay what they were.
+func c19Edit(m *ir.Module) {
+	for _, g := range m.Globals {
+		if !g.IsUnnamed() {
+			g.SetName(g.Name() + ".edited")
+			break
+		}
+	}
+	for _, f := range m.Funcs {
+		if len(f.Blocks) > 0 {
+			if f.Linkage == enum.LinkageNone {
+				f.Linkage = enum.LinkageInternal
+			}
+			for _, p := range f.Params {
+				if !p.IsUnnamed() {
+					p.SetName(p.Name() + ".e")
+					break
+				}
+			}
+			break
+		}
+	}
+	if m.SourceFilename != "" {
+		m.SourceFilename += ".edited"
+	}
+}
+
 func minInt(a, b int) int {
 	if a < b {
 		return a
@@ -372,7 +417,11 @@ func c19Episode(sc *C19Scenario, src *moduleSource, S string) (bad *c19Outcome, 
 	// Every episode runs as a simulator task (a call that blocks for ever is a
 	// deadlock verdict), under a simulated processor count that varies.
 	forceTasks = true
-	simrt.Load((&Tape{Procs: []int{1, 2, 4, 16}[(len(sc.Steps)+len(S)+len(sc.Start))%4]}).config())
+	etape := &Tape{Procs: []int{1, 2, 4, 16}[(len(sc.Steps)+len(S)+len(sc.Start))%4]}
+	if sc.PermSeed != 0 {
+		etape.Perms = genTape(newRNG(sc.PermSeed), TapeParams{NPerm: 256}).Perms
+	}
+	simrt.Load(etape.config())
 	simrt.SeamsOn(true, false)
 	defer simrt.SeamsOn(false, false)
 	crashed, crashMsg := simCallSafe(func() {
@@ -381,8 +430,18 @@ func c19Episode(sc *C19Scenario, src *moduleSource, S string) (bad *c19Outcome, 
 			skip = "module rejected by the parser"
 			return
 		}
-		if sc.Start == "printed" {
+		if sc.Start == "printed" || sc.Start == "edited" {
 			if p, _ := protect(func() { _ = m.String() }); p {
+				skip = "String() panics (not C19's business)"
+				return
+			}
+		}
+		if sc.Start == "edited" {
+			// Printed, then edited in place without adding or removing anything
+			// (names, a linkage): the reference is what String() says NOW, on this
+			// very module — WriteTo and String() must agree at every moment, not
+			// only on a module nobody has touched since its last print.
+			if p, _ := protect(func() { c19Edit(m); S = m.String() }); p {
 				skip = "String() panics (not C19's business)"
 				return
 			}
@@ -461,7 +520,7 @@ func c19Search() {
 				if c19StdKinds[st.Kind] {
 					sum.Counters["writes into a standard-library destination or a re-entrant writer/"+st.Kind]++
 				} else if st.Kind != "" {
-					sum.Counters["writes into a writer that also implements io."+map[string]string{"string": "StringWriter", "byte": "ByteWriter", "both": "StringWriter and io.ByteWriter", "readfrom": "ReaderFrom", "extras": "failing Flush/Sync/Close methods"}[st.Kind]]++
+					sum.Counters["writes into a writer that also implements io."+map[string]string{"string": "StringWriter", "byte": "ByteWriter", "both": "StringWriter and io.ByteWriter", "readfrom": "ReaderFrom", "extras": "failing Flush/Sync/Close methods", "nilptr": "nothing else, and is a nil pointer whose Write needs no receiver"}[st.Kind]]++
 				}
 			}
 			if len(sum.Samples) < 4 && sum.Counters["episodes (fresh simulator state, module rebuilt)"]%131 == 1 {
@@ -478,7 +537,19 @@ func c19Search() {
 		}
 		// Healthy writers.
 		if mine() {
-			runEpisode(&C19Scenario{Module: src.Name, Start: "printed", Steps: []C19Step{{K: -1, Shape: "short"}, {K: -1, Shape: "short", Chunk: 1}, {K: -1, Shape: "short", Chunk: 7}, {K: -1, Shape: "short", Chunk: 64}, {K: -1, Shape: "short", Kind: "extras"}, {K: -1, Shape: "short", Kind: "readfrom"}}})
+			runEpisode(&C19Scenario{Module: src.Name, Start: "printed", Steps: []C19Step{{K: -1, Shape: "short"}, {K: -1, Shape: "short", Chunk: 1}, {K: -1, Shape: "short", Chunk: 7}, {K: -1, Shape: "short", Chunk: 64}, {K: -1, Shape: "short", Kind: "extras"}, {K: -1, Shape: "short", Kind: "readfrom"}, {K: -1, Shape: "short", Kind: "nilptr"}}})
+		}
+		if mine() && len(S) > 0 {
+			// printed, edited in place, then written: healthy, failing at seeded
+			// offsets, healthy again (the reference is String() of the edited module)
+			r := newRNG(derive(*flagSeed, "C19edited/"+src.Name))
+			sc := &C19Scenario{Module: src.Name, Start: "edited", PermSeed: r.u64() | 1, Steps: []C19Step{{K: -1, Shape: "short"}}}
+			for i := 0; i < 4; i++ {
+				sc.Steps = append(sc.Steps, C19Step{K: r.intn(len(S) + 1), Shape: []string{"short", "fullerr"}[r.intn(2)], Kind: []string{"", "string", "nilptr"}[r.intn(3)]})
+			}
+			sc.Steps = append(sc.Steps, C19Step{K: -1, Shape: "short", Chunk: 5})
+			runEpisode(sc)
+			sum.Counters["episodes on a module printed, edited in place and written (reference: its String() after the edit)"]++
 		}
 		if mine() {
 			runEpisode(&C19Scenario{Module: src.Name, Start: "fresh", Steps: []C19Step{{K: -1, Shape: "short"}, {K: -1, Shape: "short"}}})
@@ -523,7 +594,7 @@ func c19Search() {
 					if (thorough && len(S) <= 16384 && (k0/episodeLen)%2 == 1) || (k0/episodeLen)%13 == 5 {
 						sc.Start = "fresh"
 					}
-					kind := []string{"", "string", "byte", "both", "readfrom", "extras"}[(k0/episodeLen)%6]
+					kind := []string{"", "string", "byte", "both", "readfrom", "extras", "nilptr"}[(k0/episodeLen)%7]
 					if !thorough && (k0/episodeLen)%3 != 0 {
 						kind = "" // quick: most episodes use the plain writer
 					}
@@ -541,6 +612,10 @@ func c19Search() {
 					}
 					// A healthy write after the failures: what a failed write left behind must not leak into it.
 					sc.Steps = append(sc.Steps, C19Step{K: -1, Shape: "short"})
+					if (k0/episodeLen)%4 == 1 {
+						sc.PermSeed = derive(*flagSeed, fmt.Sprintf("C19perm/%s/%d", src.Name, k0)) | 1
+						sum.Counters["episodes under seeded map-iteration orders (reference under the canonical order)"]++
+					}
 					runEpisode(sc)
 				}
 			}
@@ -553,7 +628,7 @@ func c19Search() {
 			for e := 0; e < 40 && failures < *flagMaxFail; e++ {
 				sc := &C19Scenario{Module: src.Name, Start: "printed"}
 				for i := 0; i < episodeLen-1; i++ {
-					sc.Steps = append(sc.Steps, C19Step{K: r.intn(len(S) + 1), Shape: []string{"short", "fullerr"}[r.intn(2)], Kind: []string{"", "", "string", "byte", "both", "readfrom", "extras"}[r.intn(7)], Err: []string{"", "", "cause-nil", "cause-other", "unwrap", "temporary"}[r.intn(6)]})
+					sc.Steps = append(sc.Steps, C19Step{K: r.intn(len(S) + 1), Shape: []string{"short", "fullerr"}[r.intn(2)], Kind: []string{"", "", "string", "byte", "both", "readfrom", "extras", "nilptr"}[r.intn(8)], Err: []string{"", "", "cause-nil", "cause-other", "unwrap", "temporary"}[r.intn(6)]})
 				}
 				sc.Steps = append(sc.Steps, C19Step{K: -1, Shape: "short"})
 				if !mine() {
@@ -635,8 +710,17 @@ func c19Search() {
 			var st C19Step
 			sc.Module, sc.Start, st = pick()
 			sc.Steps = []C19Step{st}
+			sameModule := r.chance(1, 4)
 			for i, n := 0, 1+r.intn(2); i < n; i++ {
 				m, start, step := pick()
+				if sameModule {
+					// the same module object, written to another writer at the same time
+					m, start = "=", sc.Start
+					if step.K > lens[sc.Module] {
+						step.K = lens[sc.Module]
+					}
+					sum.Counters["concurrent WriteTo calls on the SAME module into different writers"]++
+				}
 				sc.Others = append(sc.Others, C19Other{Module: m, Start: start, Step: step})
 			}
 			sc.Tape = genTape(r, TapeParams{NSched: 1024, MeanGap: []int{2, 3, 5, 8, 16, 40, 100}[r.intn(7)], EdgePct: []int{0, 30, 100}[r.intn(3)], EarlyPct: 50, NPool: 256})
@@ -676,9 +760,15 @@ func c19Conc(sc *C19Scenario) (bad *c19Outcome, who int, outs []*c19Outcome, sta
 		step  C19Step
 		S     string
 		m     *ir.Module
+		same  bool
 	}
 	parts := []*part{{src: findSource(sc.Module), start: sc.Start, step: sc.Steps[0]}}
 	for _, o := range sc.Others {
+		if o.Module == "=" {
+			// the SAME module object as the first writer's, written to a writer of its own
+			parts = append(parts, &part{src: parts[0].src, start: parts[0].start, step: o.Step, same: true})
+			continue
+		}
 		parts = append(parts, &part{src: findSource(o.Module), start: o.Start, step: o.Step})
 	}
 	for _, p := range parts {
@@ -696,6 +786,10 @@ func c19Conc(sc *C19Scenario) (bad *c19Outcome, who int, outs []*c19Outcome, sta
 	defer simrt.SeamsOn(false, false)
 	for _, p := range parts {
 		p := p
+		if p.same {
+			p.m = parts[0].m
+			continue
+		}
 		crashed, _ := simCallSafe(func() {
 			m, err := p.src.Build()
 			if err != nil {
